@@ -1,16 +1,12 @@
-"""Per-property claim texts for MANIFEST.json (see genmanifest.py)."""
+"""Per-property claim texts for MANIFEST.json: tools/claims.d/<property>.json
+with keys technique, text, note, level (see genmanifest.py)."""
+import glob
+import json
+import os
 
+_here = os.path.dirname(os.path.abspath(__file__))
 HOOK_COMMITS = []
-
 NOT_APPLICABLE = {}
-
-CLAIMS = {
-    "C19": dict(
-        technique="runtime monitor: round-trip/order/prefix oracles + reference decoders over exhaustive-short and boundary inputs, under -race (checkptr)",
-        text="Exploration: the real encoders/decoders are executed on every byte string of length <=3 over the boundary alphabet, "
-             "lengths 0..26 around the 8-byte group, boundary integers (±2^k±{0,1,2}, varint tag borders) and seeded random inputs; "
-             "each execution is judged by oracles for decode∘encode=id, returned suffix, order, prefix-freeness, and malformed inputs "
-             "are compared with small reference decoders. Held = no oracle failed on the inputs listed in the evidence.",
-        note="Trusts the reference decoders written in the harness (one screen each) and Go's bytes.Compare; sampled beyond the exhaustive part.",
-    ),
-}
+CLAIMS = {}
+for _f in sorted(glob.glob(os.path.join(_here, "claims.d", "*.json"))):
+    CLAIMS[os.path.basename(_f)[:-5]] = json.load(open(_f))
